@@ -149,7 +149,8 @@ def ocean_floor(
                 data_array, depth_dimension)
 
             # Extract just the variables with these spatial coordinates
-            dataset_subset = utils.extract_vars(dataset, variable_names)
+            dataset_subset = utils.extract_vars(
+                dataset, variable_names, keep_bounds=False)
 
             # Drop any coordinates for this depth variable.
             # For some reason .isel() call will play havok with them,
